@@ -385,9 +385,14 @@ impl ThreadPool {
         F: FnOnce() + Send + 'static,
     {
         let job = Box::new(f);
-        self.sender.send(Message::NewJob(job)).unwrap();
-        if ((self.num_busy() + 1) >= self.workers.len()) && (self.workers.len() < self.max_workers)
+        // count the job before it becomes visible to the workers: a job that was
+        // dequeued but not yet counted must not hide from the growth decision below
         {
+            let mut num_busy = self.num_busy.write().unwrap();
+            *num_busy += 1;
+        }
+        self.sender.send(Message::NewJob(job)).unwrap();
+        if (self.num_busy() >= self.workers.len()) && (self.workers.len() < self.max_workers) {
             self.workers.push(Worker::new(
                 Arc::clone(&self.receiver),
                 Arc::clone(&self.num_busy),
@@ -426,10 +431,6 @@ impl Worker {
 
             match message {
                 Message::NewJob(job) => {
-                    {
-                        let mut num_busy = num_busy.write().unwrap();
-                        *num_busy += 1;
-                    }
                     job.call_box();
                     {
                         let mut num_busy = num_busy.write().unwrap();
